@@ -5,6 +5,7 @@ package litestream
 
 import (
 	"context"
+	"io"
 	"time"
 
 	"github.com/benbjohnson/litestream/internal/vx"
@@ -82,4 +83,59 @@ func VxC15Exact() {
 	vx.Assert("T-before-first-backup-fails", want != 0)
 	vx.Assert("exactly-last-txid-before-T", uint64(plan[len(plan)-1].MaxTXID) == want)
 	vx.Observe("reached", uint64(plan[len(plan)-1].MaxTXID))
+}
+
+// VxC15SnapshotStamp: the time a level-9 snapshot carries. A snapshot request
+// that has to wait for the executor (another sync round completes first and
+// publishes one more level-0 file, some time later) ends up covering that newer
+// TXID; its header time must then not be earlier than that TXID's replication
+// time, or a timestamp restore for an instant in between would return a
+// transaction replicated after the requested time.
+func VxC15SnapshotStamp() {
+	w := vxSnapshotWorldOpts(true)
+	defer w.db.f.Close()
+	db := w.db
+	next := w.pos + 1
+	var stampNext int64
+	vxLockExecHook = func() {
+		// the round that held the executor: time passes, then it publishes pos+1
+		// covering the first frame after the replicated range
+		vx.ClockStep("syncTakes", 2)
+		stampNext = time.Now().UnixMilli()
+		lf := &vxLTX{level: 0, min: next, max: next, commit: w.sizePos, ts: stampNext, pages: []vxPg{{w.laterFrames[0].pgno, w.laterFrames[0].tag}}}
+		vx.FSWriteFile(db.LTXPath(0, next, next), vxEncodeLTXWAL(lf, w.laterOffset, vxFS, 100, 200))
+		db.invalidatePosCache()
+		db.syncState.lastSyncedWALOffset = w.laterOffset + vxFS
+		db.syncState.syncedToWALEnd = false
+	}
+	defer func() { vxLockExecHook = nil }()
+	pos, rc, err := db.SnapshotReader(context.Background())
+	if err != nil {
+		return
+	}
+	data, rerr := io.ReadAll(rc)
+	_ = rc.Close()
+	if rerr != nil {
+		return
+	}
+	snap, derr := vxDecodeLTX(data)
+	vx.Assert("snapshot-decodes", derr == nil)
+	if derr != nil {
+		return
+	}
+	vx.Assert("snapshot-covers-the-round-it-waited-for", pos.TXID == next && snap.max == next)
+	vx.Assert("snapshot-stamp-not-before-its-newest-transaction", snap.ts >= stampNext)
+	// and its content is the state at that position
+	at := w.atPos
+	vxApplyFrames(&at, w.laterFrames[:1])
+	ok := len(snap.pages) == int(w.sizePos)
+	for i := 0; ok && i < int(w.sizePos); i++ {
+		ok = snap.pages[i].pgno == uint32(i+1)
+	}
+	vx.Assert("snapshot-holds-every-page-once", ok)
+	if ok {
+		for i := 0; i < int(w.sizePos); i++ {
+			vx.Assert("page-image-is-the-one-at-pos", snap.pages[i].tag == at[i])
+		}
+	}
 }
